@@ -7,6 +7,7 @@ import (
 	"math/rand"
 	"sort"
 	"strings"
+	"sync"
 
 	"github.com/nautilus/gateway"
 	"github.com/nautilus/graphql"
@@ -33,10 +34,13 @@ func (c18) Rule() string {
 
 // CaptureExec records the variables each operation is executed with.
 type CaptureExec struct {
+	mu   sync.Mutex // the handler executes the operations of a batch concurrently
 	Seen []map[string]interface{}
 }
 
 func (c *CaptureExec) Execute(ctx *gateway.ExecutionContext) (map[string]interface{}, error) {
+	c.mu.Lock()
+	defer c.mu.Unlock()
 	c.Seen = append(c.Seen, ctx.Variables)
 	return map[string]interface{}{"ok": true}, nil
 }
